@@ -16,8 +16,8 @@ type Span = (usize, usize);
 
 /// Index of the generator AST by source span.
 struct Index<'a> {
-    /// Expr::Var nodes by span (grammar span, i.e. up to the next token)
-    vars: HashMap<Span, Vec<(&'a str, Id)>>,
+    /// Expr::Var nodes by start offset
+    vars: HashMap<usize, Vec<(&'a str, Id)>>,
     /// assignment statements by span: (target name, stmt id)
     assigns: HashMap<Span, Vec<(&'a str, Id)>>,
     /// declaration statements by span: symbols
@@ -31,7 +31,9 @@ fn build_index<'a>(c: &'a CfCase) -> Index<'a> {
             e.walk(&mut |x| {
                 if let Expr::Var { id, name, .. } = x {
                     if let Some(sp) = c.r.span(*id) {
-                        ix.vars.entry(sp).or_default().push((name.as_str(), *id));
+                        // keyed by the start offset only: the grammar ends a variable either at its last
+                        // character or at the next token, depending on the production it is parsed by
+                        ix.vars.entry(sp.0).or_default().push((name.as_str(), *id));
                     }
                 }
             });
@@ -62,6 +64,7 @@ fn build_index<'a>(c: &'a CfCase) -> Index<'a> {
 fn occurrences(cfg: &Cfg, c: &CfCase, res: &Resolution) -> Result<Vec<((String, Option<String>), DeclRef, Span)>, Bad> {
     let ix = build_index(c);
     let mut out = Vec::new();
+    let mut unmapped: Vec<String> = Vec::new();
     let key = |n: &ir::VariableName| (n.name().clone(), n.suffix().clone());
 
     fn visit_expr(
@@ -75,7 +78,7 @@ fn occurrences(cfg: &Cfg, c: &CfCase, res: &Resolution) -> Result<Vec<((String, 
         let mut occ = |meta: &ir::Meta, name: &ir::VariableName| {
             let sp = (meta.start(), meta.end());
             // a source variable node, or the variable synthesised by `x op= e` / `x++`
-            if let Some(cands) = ix.vars.get(&sp) {
+            if let Some(cands) = ix.vars.get(&sp.0) {
                 if let Some((_, id)) = cands.iter().find(|(n, _)| *n == name.name().as_str()) {
                     if let Some(d) = res.uses.get(id) {
                         out.push((key(name), *d, sp));
@@ -134,11 +137,16 @@ fn occurrences(cfg: &Cfg, c: &CfCase, res: &Resolution) -> Result<Vec<((String, 
             match st {
                 Declaration { names, dimensions, .. } => {
                     let n = names.first();
+                    let mut mapped = false;
                     if let Some(syms) = ix.decls.get(&sp) {
                         // the k-th declaration of this name at this span
                         if let Some(sym) = syms.iter().find(|s| &s.name == n.name()) {
                             out.push((key(n), DeclRef::Sym(sym.id), sp));
+                            mapped = true;
                         }
+                    }
+                    if !mapped {
+                        unmapped.push(format!("declaration of {} at {}..{}", n.name(), sp.0, sp.1));
                     }
                     for d in dimensions {
                         visit_expr(d, &ix, res, &mut out);
@@ -161,8 +169,12 @@ fn occurrences(cfg: &Cfg, c: &CfCase, res: &Resolution) -> Result<Vec<((String, 
                         if let Some(syms) = ix.decls.get(&sp) {
                             if let Some(sym) = syms.iter().find(|s| &s.name == var.name()) {
                                 out.push((key(var), DeclRef::Sym(sym.id), sp));
+                                found = true;
                             }
                         }
+                    }
+                    if !found {
+                        unmapped.push(format!("assignment to {} at {}..{}", var.name(), sp.0, sp.1));
                     }
                     visit_expr(rhe, &ix, res, &mut out);
                 }
@@ -183,12 +195,30 @@ fn occurrences(cfg: &Cfg, c: &CfCase, res: &Resolution) -> Result<Vec<((String, 
             }
         }
     }
+    if let Some(u) = unmapped.first() {
+        UNMAPPED.with(|c| c.set(c.get() + unmapped.len() as u64));
+        let _ = u;
+    }
     Ok(out)
 }
 
+thread_local! {
+    static UNMAPPED: std::cell::Cell<u64> = const { std::cell::Cell::new(0) };
+}
+
 fn check_resolution(cfg: &Cfg, c: &CfCase, res: &Resolution, rec: &Rec) -> Verdict {
+    UNMAPPED.with(|c| c.set(0));
     let occ = occurrences(cfg, c, res)?;
     rec.class_n("occurrences_checked", occ.len() as u64);
+    let unmapped = UNMAPPED.with(|c| c.get());
+    if unmapped > 0 {
+        rec.class_n("ir_declarations_or_assignments_without_source_counterpart", unmapped);
+    }
+    if std::env::var("VERIF_DEBUG").is_ok() {
+        for o in &occ {
+            eprintln!("occ {:?}", o);
+        }
+    }
     let mut by_name: BTreeMap<(String, Option<String>), (DeclRef, Span)> = BTreeMap::new();
     let mut by_decl: BTreeMap<DeclRef, ((String, Option<String>), Span)> = BTreeMap::new();
     let render = || format!("{}\n--- CFG ---\n{}", c.r.src, dump_cfg(cfg));
@@ -423,6 +453,27 @@ fn case(ctx: &Ctx, tape: &[u8], rec: &Rec, with_binary: bool) -> Verdict {
             rec.class("def_with_signal_declared_in_nested_scope");
         }
     }
+    {
+        let mut hit = false;
+        c.def.body.walk(&mut |s| {
+            if let crate::gen::ast::Stmt::Decl { syms, .. } = s {
+                for (k, sym) in syms.iter().enumerate() {
+                    if let Some(init) = &sym.init {
+                        init.walk(&mut |x| {
+                            if let crate::gen::ast::Expr::Var { name, .. } = x {
+                                if syms[k + 1..].iter().any(|later| &later.name == name) {
+                                    hit = true;
+                                }
+                            }
+                        });
+                    }
+                }
+            }
+        });
+        if hit {
+            rec.class("def_with_later_symbol_redeclaring_a_name_read_by_an_earlier_initialiser");
+        }
+    }
     let collide = c.r.src.contains("x_0") && res.decl_count.get("x").copied().unwrap_or(0) >= 2;
     if collide {
         rec.class("def_with_x_shadowed_next_to_x_0");
@@ -446,7 +497,14 @@ fn case(ctx: &Ctx, tape: &[u8], rec: &Rec, with_binary: bool) -> Verdict {
             check_resolution(&ssa, &c, &res, rec)?;
             check_ssa_reads(&ssa, &c.r.src)?;
         }
-        Err(obs::SsaFail::Error(_)) => rec.class("ssa_rejected"),
+        Err(obs::SsaFail::Error(r)) => {
+            // every read of the generated definition comes after an assignment to the variable it resolves
+            // to, so a rejection (`used before it is defined`) means a use was bound to another declaration
+            rec.class("ssa_rejected");
+            return Err(Bad::new(format!("SSA conversion rejects a definition whose reads are all definitely assigned: {}", r.message()))
+                .sig("C10:use-bound-to-later-declaration")
+                .rendered(c.r.src.clone()));
+        }
         Err(obs::SsaFail::Panic(p)) => {
             return Err(Bad::new(format!("into_ssa panicked: {p}")).sig("C10:ssa-panic").rendered(c.r.src.clone()))
         }
